@@ -145,6 +145,8 @@ func c09Hostile() []scalar {
 		{"func-injection", "x\n}\nfunc init(){}\n//"}, {"import-injection", `*/ import "os" /*`}, {"init-injection", "*/ func init() { panic(1) } /*"},
 		{"backtick-injection", "`+os.Exit(1)+`"}, {"struct-tag-injection", "the name`; Injected bool `of the thing"}, {"raw-string-balanced", "a `b` c"}, {"quote-injection", `"+os.Getenv("X")+"`}, {"tmpl", "{{.}}"}, {"fmt-verbs", "%s%d%!"},
 		{"u2028", "a b"}, {"bom", "\ufeffa"}, {"line-comment", "// x"}, {"newline-code", "ok\nvar Injected = 1"}, {"tab", "a\tb"}, {"nul", "a\x00b"},
+		// terminators that re-form when a sanitiser removes or rewrites the inner one in a single pass
+		{"nested-comment-close", "**// var Injected = 1 //"}, {"doubled-comment-close", "*/*/ var Injected = 1 /*/*"}, {"nested-backtick", "``+os.Exit(1)+``"},
 	}
 }
 
@@ -239,7 +241,7 @@ func RunC09(tier, replay string) int {
 	if tier == "thorough" {
 		targets = []string{"server", "client", "cli", "model", "model+tags"}
 	}
-	r.Rule = "carrier spec with neutral text in 45 free-text positions (info, contact, license, host, basePath, externalDocs at 4 levels, tag, operation, parameter descriptions/defaults/patterns per location, response and header descriptions/defaults, schema/property titles, descriptions, defaults, examples, patterns, security definition and scope descriptions); one of 24 hostile strings (comment terminators, quotes, backticks, backslashes, newlines/CR, code-injection payloads, template and format verbs, U+2028, BOM, NUL) placed in ONE position at a time (position pairs in the thorough tier) x targets; generated by the real command with --name; if generation succeeds every file must parse and its AST with comments, string/char literals and struct tags erased must equal the neutral rendering's (same files, same declarations, imports, statements); the neutral rendering itself must build. distinct = (position, hostile string, target); non-trivial = generation succeeded and ASTs were compared"
+	r.Rule = "carrier spec with neutral text in 45 free-text positions (info, contact, license, host, basePath, externalDocs at 4 levels, tag, operation, parameter descriptions/defaults/patterns per location, response and header descriptions/defaults, schema/property titles, descriptions, defaults, examples, patterns, security definition and scope descriptions); one of 27 hostile strings (comment terminators, quotes, backticks, backslashes, newlines/CR, code-injection payloads, template and format verbs, U+2028, BOM, NUL) placed in ONE position at a time (position pairs in the thorough tier) x targets; generated by the real command with --name; if generation succeeds every file must parse and its AST with comments, string/char literals and struct tags erased must equal the neutral rendering's (same files, same declarations, imports, statements); the neutral rendering itself must build. distinct = (position, hostile string, target); non-trivial = generation succeeded and ASTs were compared"
 	r.Assume = []string{"go/parser and go/printer are trusted", "equal erased ASTs + a building neutral rendering imply a building hostile rendering (only literal contents differ)", "--skip-validation is passed so that hostile text in url/email/pattern positions reaches the templates; a generation error is an accepted outcome"}
 	s := NewScratch("C09")
 	defer s.Close()
